@@ -22,9 +22,9 @@ bounded C03 5 6 sync2.Map sequential contract vs builtin map, all call sequences
 // BOUNDED stand-in (randomised schedules; never counted as proved) for the ASSUMED atomicity of sync2.Map that the
 // concurrent wrappers rely on: a key living only in the dirty map is loaded / loaded-or-stored / deleted / stored /
 // ranged over by several goroutines while others force promotions; every outcome is checked against an atomic map.
-bounded C03 40000 300000 sync2.Map atomic contract under concurrent use (operands of the set algebra are only read): rounds of 6 scenario families with forced promotions
-bounded C05 40000 300000 sync2.Map atomic contract under concurrent use: rounds of 6 scenario families with forced promotions
-bounded C09 40000 300000 sync2.Map atomic contract under concurrent use: rounds of 6 scenario families with forced promotions
+bounded C03 40000 300000 sync2.Map atomic contract under concurrent use (operands of the set algebra are only read): rounds of 6 scenario families with forced promotions, plus three dedicated races (dirty-map rebuild, expunged keys, delete against stores)
+bounded C05 40000 300000 sync2.Map atomic contract under concurrent use: rounds of 6 scenario families with forced promotions, plus three dedicated races (dirty-map rebuild, expunged keys, delete against stores)
+bounded C09 40000 300000 sync2.Map atomic contract under concurrent use: rounds of 6 scenario families with forced promotions, plus three dedicated races (dirty-map rebuild, expunged keys, delete against stores)
 
 func Map.Load
   trusted abstract contract of sync2.Map: sequential behaviour proved by the #impl refinement below, atomicity (C04) assumed - interference is checked at lock acquisition only (#lk variants)
